@@ -18,6 +18,7 @@ func c02Profile() lang.Profile {
 	p.IllTyped = 3
 	p.StrCompare = true
 	p.Moods = true
+	p.ReqVariants = true
 	p.ObserveAll = 60
 	p.RareIndexSet = true
 	p.Exclude = knownSet()
